@@ -15,7 +15,7 @@ import ms
 from common import qlit
 
 MANIFEST = dict(
-    text='Theorems (props/C12.v, 18, all closed under the global context) about a hand-written Gallina model of HaighDiagram.transform / '
+    text='Theorems (props/C12.v, 21, all closed under the global context) about a hand-written Gallina model of HaighDiagram.transform / '
          '_SegmentTransformer (segment ordering by distance from the target in fake-mean-stress space with stable ties, closed test interval, '
          'the +-inf flip, transformed_amplitude incl. R_goal = -inf and 1.0 -> -inf), the FKM-Goodman and five-segment diagram constructors and '
          '_rebin_results, over Q with an extended rational type for R. segment_walk_invariant: a * H(R) is invariant under every step of the '
@@ -31,8 +31,13 @@ MANIFEST = dict(
          'listing, with and without the repair), natural_listing_refuted (code as it is: the FKM-Goodman diagram listed in the natural order of R leaves a cycle '
          'at R = 2 untransformed for the goal R = 1/2 and is path dependent; open finding segment-listing-order), listing_repair_keeps_fkm_goodman / '
          '_five_segment (fixes/C12-segment-listing-order.patch, model flag fo = true, does not change the constructors\' diagrams, so every theorem above carries over). '
+         'Index layout of the inputs: matrix_result_independent_of_row_layout (the re-binned result, class by class, depends only on the multiset of the non-empty '
+         'rows (transformed range, cycles) of the matrix: row order and sparsity -- mat[mat > 0] -- do not matter when ranges and cycles are paired by label), '
+         'frame_index_order_irrelevant and frame_row_is_single_diagram_transformation (one parameter set per element: every row is transformed with the diagram its '
+         'element id looks up in the frame of parameter sets, whatever the order in which the frame lists its distinct ids). '
          'The model is tied to the code by a vm_compute correspondence check of amplitude and mean through the plain functions, the '
-         'DataFrame accessor (several index layouts, one diagram per element) and the histogram accessor, and of the re-binned counts.',
+         'DataFrame accessor (several index layouts, one diagram per element with the frame of parameter sets indexed in ascending / descending / arbitrary id order) '
+         'and the histogram accessor (full, permuted and sparse matrices), and of the re-binned counts.',
     note=common.TB_NOTE + 'all C12 theorems are closed under the global context (no axioms). Model is hand-written: the correspondence harness '
          '(generators, Coq literals, exact Fraction oracle) is trusted; float rounding is outside the theorems (comparison tolerance 1e-9 '
          'relative to the magnitude of the cycle); pandas/numpy internals (alignment, stable sort of <= 5 distances, IntervalIndex, linspace/ceil in '
@@ -165,7 +170,7 @@ def check_path(d, ft, R1, Rg):
     return close(two, direct, scale_of(a, m) + a1[0] + abs(m1[0])), two, direct
 
 
-def iface_disagree(d, ft, Rg, all_diagrams=None):
+def iface_disagree(d, ft, Rg, all_diagrams=None, frame=None):
     """one cycle through the plain function, the DataFrame accessor (both column conventions, optionally one diagram per
     element) and the histogram accessor (one-class matrices of both kinds); True if the amplitudes differ"""
     a, m = ms.am_of(ft)
@@ -180,7 +185,7 @@ def iface_disagree(d, ft, Rg, all_diagrams=None):
         h2 = ms.hist_series('from_to', [fm - fa - w, fm - fa + w], [fm + fa - w, fm + fa + w], [[1]])
         vals['histogram/from_to'] = float(ms.impl_hist_transform(d, h2, Rg)[0].iloc[0]) / 2.
     if all_diagrams:
-        out = ms.impl_collective_multi(all_diagrams, ('from_to', [ft[0]], [ft[1]]), Rg)
+        out = ms.impl_collective_multi(all_diagrams, ('from_to', [ft[0]], [ft[1]]), Rg, frame)
         k = [i for i, dd in enumerate(all_diagrams) if dd == d]
         if k:
             vals['collective/one diagram per element'] = out[k[0]][0][0]
@@ -193,7 +198,7 @@ def replay_violation(v):
     d, Rg = v['diagram'], v['R_goal']
     what = v['what']
     if what == W_IFACE:
-        return iface_disagree(d, tuple(v['cycle']), Rg, v.get('all_diagrams'))
+        return iface_disagree(d, tuple(v['cycle']), Rg, v.get('all_diagrams'), v.get('frame'))
     if what in (W_CLOSED, W_FIX) and 'cycle' in v:
         ft = tuple(v['cycle'])
         if what == W_FIX:
@@ -357,10 +362,38 @@ def mono_batch(res, rng, d, Rg, stats):
                           observed=[out[i], out[i + 1]], bound=bound)
 
 
-def multi_batch(res, rng, kind, stats, terms, info):
+def gen_frame(rng, n):
+    """index layout of the frame of parameter sets (one row per element) and of the collective: the element ids as the
+    frame lists them (ascending / descending / any order, as node ids come out of a mesh) and the order in which the
+    collective lists the elements (same as the frame / another order).  Returns (frame or None, coverage key)."""
+    q = rng.random()
+    if q < 0.2:
+        return None, 'ids ascending (7, 10, ..), collective in the same order'
+    ids = sorted(rng.sample(range(1, 40), n))
+    if q < 0.35:
+        key = 'ids ascending'
+    elif q < 0.5:
+        ids.reverse()
+        key = 'ids descending'
+    else:
+        while ids == sorted(ids):
+            rng.shuffle(ids)
+        key = 'ids not sorted' if ids != sorted(ids, reverse=True) else 'ids descending'
+    coll = None
+    if rng.random() < 0.4:
+        coll = list(ids)
+        rng.shuffle(coll)
+        if coll == ids:
+            coll = None
+    return {'ids': ids, 'coll': coll}, key + (', collective in another order' if coll else ', collective in the same order')
+
+
+def multi_batch(res, rng, kind, stats, terms, info, case=None):
     """one Haigh diagram per element (DataFrame of parameters): every element must behave like the single-diagram call"""
-    n = rng.choice([2, 3])
-    if kind == 'fkm':
+    n = rng.choice([2, 3, 4])
+    if case:
+        ds, n = case['all_diagrams'], len(case['all_diagrams'])
+    elif kind == 'fkm':
         ds = [ms.gen_fkm(rng) for _ in range(n)]
         with_m2 = all(dd['M2'] is not None for dd in ds)
         if not with_m2:
@@ -368,13 +401,15 @@ def multi_batch(res, rng, kind, stats, terms, info):
                 dd['M2'] = None
     else:
         ds = [ms.gen_five(rng) for _ in range(n)]
-    Rg = ms.gen_goal(rng, ds[0])
+    Rg = case['R_goal'] if case else ms.gen_goal(rng, ds[0])
     if Rg == 1.0 or not all(ms.denominators_ok(dd, Rg) for dd in ds):
         return
-    cyc = ms.gen_cycles(rng, ds[0], Rg, 6)
+    cyc = [tuple(c) for c in case['cycles']] if case else ms.gen_cycles(rng, ds[0], Rg, 6)
     fr, to = [c[0] for c in cyc], [c[1] for c in cyc]
+    frame, key = (case['frame'], 'corpus') if case else gen_frame(rng, n)
+    stats['multi_frames'][key] = stats['multi_frames'].get(key, 0) + 1
     try:
-        out = ms.impl_collective_multi(ds, ('from_to', fr, to), Rg)
+        out = ms.impl_collective_multi(ds, ('from_to', fr, to), Rg, frame)
     except Exception as e:      # layouts pandas / the broadcaster rejects are not part of the property
         stats['multi_rejected'] = stats.get('multi_rejected', 0) + 1
         stats['multi_rejected_example'] = repr(e)[:200]
@@ -389,14 +424,15 @@ def multi_batch(res, rng, kind, stats, terms, info):
             stats['multi'] += 1
             if not close(out[k][0][j], single[0][j], sc, 1e-12):
                 res.violation(W_IFACE, diagram=dd, R_goal=Rg, cycle=list(ft), interface='one diagram per element',
-                              observed={'per element': out[k][0][j], 'single': single[0][j]}, all_diagrams=ds)
+                              observed={'per element': out[k][0][j], 'single': single[0][j]}, all_diagrams=ds, frame=frame,
+                              element_id=(frame['ids'][k] if frame else None))
             if math.isfinite(out[k][0][j]) and math.isfinite(out[k][1][j]):
                 terms.append('obs_close %s %s (transform_ord %s %s %s (cyc_of_from_to %s %s)) %s %s' % (
                     qlit(TOL), qlit(sc), stats['fofx'], ms.diagram_lit(dd), ms.elit(Rg), qlit(ft[0]), qlit(ft[1]),
                     qlit(out[k][0][j]), qlit(out[k][1][j])))
             else:
                 terms.append('false')
-            info.append({'diagram': dd, 'R_goal': Rg, 'cycle': list(ft), 'interface': 'collective, one diagram per element',
+            info.append({'diagram': dd, 'R_goal': Rg, 'cycle': list(ft), 'interface': 'collective, one diagram per element', 'frame': frame,
                          'impl_amplitude': out[k][0][j], 'impl_mean': out[k][1][j]})
 
 
@@ -444,16 +480,52 @@ def gen_hist(rng):
         levels = list(names)
         rng.shuffle(levels)
         order = {'levels': levels, 'perm': None}
+    # sparse matrix: only some of the classes are listed (the empty cells dropped: mat[mat > 0]; a random subset; without the
+    # "diagonal" i == j), in whatever row order was chosen above -- in particular still lexicographically sorted
+    if rng.random() < (0.5 if order is None else 0.3):
+        n = nx * ny * (2 if extra else 1)
+        flat = (np.stack([np.asarray(c, float) for c in counts], axis=-1) if extra else np.asarray(counts, float)).ravel()
+        cell = [(i, j) for i in range(nx) for j in range(ny) for _ in range(2 if extra else 1)]
+        pos = list(order['perm']) if order and order.get('perm') is not None else list(range(n))
+        mode = rng.choice(['nonzero', 'nonzero', 'subset', 'offdiagonal'])
+        if mode == 'nonzero':
+            keep = [k for k, p in enumerate(pos) if flat[p] > 0]
+        elif mode == 'subset':
+            keep = [k for k in range(n) if rng.random() < 0.6]
+        else:
+            keep = [k for k, p in enumerate(pos) if cell[p][0] != cell[p][1]]
+        if 2 <= len(keep) < n:
+            order = dict(order or {'levels': None, 'perm': None}, keep=keep)
     return kind, [float(v) for v in xb], [float(v) for v in yb], counts, extra, order
 
 
-def hist_batch(res, rng, stats, terms, info, rterms, rinfo):
-    d = ms.gen_fkm(rng)
-    Rg = ms.gen_goal(rng, d, matrix=True)
-    kind, xb, yb, counts, extra, order = gen_hist(rng)
+def first_appearance_not_ascending(s):
+    """some index level of the matrix whose values do not FIRST APPEAR in ascending order down the rows (only possible for
+    a matrix that is not the full product): HaighDiagram.transform groups by first appearance, so it returns the rows of such
+    a matrix in another order than the matrix lists them even when the matrix is sorted"""
+    for lv in range(s.index.nlevels):
+        vals = list(dict.fromkeys(s.index.get_level_values(lv)))
+        if any(not (a < b) for a, b in zip(vals, vals[1:])):
+            return True
+    return False
+
+
+def hist_batch(res, rng, stats, terms, info, rterms, rinfo, case=None):
+    if case:
+        d, Rg = case['diagram'], case['R_goal']
+        kind, xb, yb, counts, extra, order = (case[k] for k in ('hist_kind', 'x_breaks', 'y_breaks', 'counts', 'extra', 'order'))
+    else:
+        d = ms.gen_fkm(rng)
+        Rg = ms.gen_goal(rng, d, matrix=True)
+        kind, xb, yb, counts, extra, order = gen_hist(rng)
     s = ms.hist_series(kind, xb, yb, counts, extra, order)
     base = dict(diagram=d, R_goal=Rg, hist_kind=kind, x_breaks=xb, y_breaks=yb, counts=counts, extra=extra, order=order)
-    key = 'product order' if order is None else ('rows reordered' if order.get('perm') is not None else 'levels reordered')
+    key = 'product order' if order is None or (order.get('perm') is None and not order.get('levels')) else (
+        'rows reordered' if order.get('perm') is not None else 'levels reordered')
+    if order and order.get('keep') is not None:
+        key += ', sparse' + (' (rows sorted)' if s.index.is_monotonic_increasing else ' (rows not sorted)')
+        if s.index.is_monotonic_increasing and first_appearance_not_ascending(s):
+            stats['hist_sparse_sorted_regrouped'] += 1
     stats['hist_layouts'][key] = stats['hist_layouts'].get(key, 0) + 1
     lx, ly = ('range', 'mean') if kind == 'range_mean' else ('from', 'to')
     x = s.index.get_level_values(lx).mid.to_numpy(dtype=float)
@@ -484,6 +556,8 @@ def hist_batch(res, rng, stats, terms, info, rterms, rinfo):
     stats['calls'] += 3
     stats['hist'] += 1
     ctor = 'cyc_of_hist_range_mean' if kind == 'range_mean' else 'cyc_of_hist_from_to'
+    if extra is not None:       # a sparse matrix need not list every node
+        extra = [nid for nid in extra if nid in set(s.index.get_level_values('node_id'))]
     for k in range(len(rv)):
         sc = scale_of(amp[k], mean[k])
         if not close(rv[k] / 2., plain[k], sc, 1e-12):
@@ -590,6 +664,11 @@ def load_corpus():
     return out
 
 
+def corpus_of(key):
+    """'cycles' + 'diagram': one-diagram batches; 'all_diagrams': one parameter set per element; 'hist_kind': matrices"""
+    return [c for c in load_corpus() if key in c and (key != 'cycles' or 'diagram' in c)]
+
+
 def run(res):
     quick = res.tier == 'quick'
     rng = res.rng
@@ -606,8 +685,10 @@ def run(res):
                        'slopes in [0,1), 10% wild slopes in [-2,2] with divisors bounded away from 0); targets: -inf, borders 0/R12/R23, segment mids '
                        '(distance 0), dyadic R < 1 and R > 1; cycles: random dyadic (amplitude, mean), exactly on borders / on the target / 2^-k beside '
                        'them, compressive R > 1; interfaces: plain function, DataFrame accessor (range/mean or from/to; RangeIndex, named, MultiIndex, '
-                       'string index; one diagram per element), histogram accessor (range/mean and from/to matrices, optional node level; 55% product order, else rows '
-                       'shuffled / reversed / two rows swapped and / or index levels reordered); 40% of the non-wild diagrams additionally through HaighDiagram.from_dict '
+                       'string index; one diagram per element: 2-4 different parameter sets, frame ids ascending / descending / any order, the collective listing the '
+                       'elements in the same or another order), histogram accessor (range/mean and from/to matrices, optional node level; 55% product order, else rows '
+                       'shuffled / reversed / two rows swapped and / or index levels reordered; 50% / 30% of these SPARSE: only the non-empty classes, a random subset or '
+                       'all but the diagonal are listed); 40% of the non-wild diagrams additionally through HaighDiagram.from_dict '
                        'in a random rotation of the natural segment order; collective cycles with -0.0 as upper or lower value; '
                        'non-trivial = distinct (diagram, target, cycle) triples whose model/implementation pair was compared')
     common.standard_proof_stage(res, 'C12')
@@ -615,7 +696,7 @@ def run(res):
     stats = {'calls': 0, 'oracle': 0, 'paths': 0, 'at_target': 0, 'mono_pairs': 0, 'multi': 0, 'hist': 0, 'hist_degenerate': 0,
              'skipped_goal_or_divisor': 0, 'nontrivial': set(), 'cycle_regions': {}, 'rebin_hyp_ok': 0, 'rebin_hyp_bad': 0,
              'rebin_hyp_examples': [], 'hist_layouts': {}, 'hist_booked': 0, 'signed_zero': 0, 'listed': {},
-             'tie_order_unspecified': 0}
+             'tie_order_unspecified': 0, 'multi_frames': {}, 'hist_sparse_sorted_regrouped': 0}
     terms, info, rterms, rinfo = [], [], [], []
     # which variant of the model is the code?  fx = false: the code with the open finding five-segment-target-neg-inf
     # (cycles at R > 1 are not moved when R_goal = -inf); fx = true: the repaired code.  Decided by replaying the finding's
@@ -643,8 +724,12 @@ def run(res):
         'position (finding reproduces)' if rows_defect else 'label (repaired code)')
     import time
     t0 = time.time()
-    for c in load_corpus():          # hand-picked edge cases and minimised earlier failures run first
+    for c in corpus_of('cycles'):          # hand-picked edge cases and minimised earlier failures run first
         batch(res, rng, c['diagram'], c['R_goal'], stats, terms, info, cyc=[tuple(x) for x in c['cycles']])
+    for c in corpus_of('all_diagrams'):    # several parameter sets, frame index not sorted
+        multi_batch(res, rng, c['all_diagrams'][0]['kind'], stats, terms, info, case=c)
+    for c in corpus_of('hist_kind'):       # sparse sorted matrices
+        hist_batch(res, rng, stats, terms, info, rterms, rinfo, case=c)
     stats['corpus_batches'] = len(load_corpus())
     n_batch = 160 if quick else 1500
     for it in range(n_batch):
@@ -667,6 +752,9 @@ def run(res):
         multi_batch(res, rng, 'fkm' if it % 2 == 0 else 'five', stats, terms, info)
     for it in range(40 if quick else 400):
         hist_batch(res, rng, stats, terms, info, rterms, rinfo)
+    if quick:       # the quick tier's 12 batches above leave few frames with unsorted ids: 12 more (the thorough tier has 120)
+        for it in range(12):
+            multi_batch(res, rng, 'five' if it % 2 == 0 else 'fkm', stats, terms, info)
 
     res.cov['wall_impl_s'] = round(time.time() - t0, 1)
     t0 = time.time()
@@ -690,7 +778,8 @@ def run(res):
     res.add_cases(len(terms) + len(rterms), nontrivial=len(stats['nontrivial']))
     res.add_cases(stats['oracle'] + stats['paths'] + stats['mono_pairs'] + stats['multi'], nontrivial=0)
     for k in ('corpus_batches', 'calls', 'oracle', 'paths', 'at_target', 'mono_pairs', 'multi', 'hist', 'hist_degenerate', 'skipped_goal_or_divisor',
-              'cycle_regions', 'hist_layouts', 'hist_booked', 'signed_zero', 'listed', 'tie_order_unspecified'):
+              'cycle_regions', 'hist_layouts', 'hist_booked', 'signed_zero', 'listed', 'tie_order_unspecified', 'multi_frames',
+              'hist_sparse_sorted_regrouped'):
         res.cov['impl_' + k if k == 'calls' else k] = stats[k]
     res.cov['listed'] = {'from_dict listing (rotation of the natural order) %d' % k: v for k, v in sorted(stats['listed'].items())}
     for k in ('multi_rejected', 'multi_rejected_example', 'hist_rejected', 'hist_rejected_example'):
